@@ -12,6 +12,8 @@
 (***************************************************************************)
 EXTENDS DbSearch, Json, IOUtils
 
+CONSTANT CrashMode   \* "atomic" (C03) | "readable" (C02): what a CrashProbe event must satisfy
+
 Rec == ndJsonDeserialize(IOEnv.TRACE)
 
 VARIABLES db, l
@@ -187,12 +189,19 @@ TObserve == /\ IsEvent("Observe") /\ Same
             /\ InSlotOrder(db, E.elements)
             /\ \A i \in DOMAIN E.others : E.others[i] = E.digest
 
+\* a crash image taken inside the last query / transaction was reopened by the real database:
+\*   readable (C02): it opened and every read of the canonical dump succeeded;
+\*   atomic   (C03): its dump equals the (validated) dump before or after that query / transaction.
+TCrashProbe == /\ IsEvent("CrashProbe") /\ Same
+               /\ E.ok
+               /\ (CrashMode = "atomic" => E.same_as \in {"before", "after"})
+
 \* maintenance operations change nothing (C05): the Observe that follows must equal the state
 TMaintain == IsEvent("Maintain") /\ E.ok /\ Same
 
 TNext == TReset \/ TMut \/ TTx \/ TSelectValues \/ TSelectKeys \/ TSelectKeyCount \/ TSelectAliases
          \/ TSelectAllAliases \/ TSelectEdgeCount \/ TSelectNodeCount \/ TSelectIndexes \/ TSearchIndex
-         \/ TElements \/ TSelectIds \/ TObserve \/ TMaintain \/ TSearch
+         \/ TElements \/ TSelectIds \/ TObserve \/ TMaintain \/ TSearch \/ TCrashProbe
 
 TraceSpec == TInit /\ [][TNext]_tvars
 
